@@ -31,7 +31,11 @@ RULE = ("(a) self-replacement P→P on planted structures (all cell kinds, poses
         "B→A on all B sites must restore the multiset. (b) also with B = A + one element substituted + one atom of "
         "unchanged element re-positioned by 0.02–0.09 Å (tight tolerance: more than 1.3·atol; and atol 0.1 / 0.2). "
         "TILT: in (b) and in the replace_all stream also 6–8 Å long patterns whose copies are tilted out of the pattern's own "
-        "orientation by 1e-3 rad … 1.3·atol rad (angle × lever arm > tolerance while angle[rad] < atol[Å]).")
+        "orientation by 1e-3 rad … 1.3·atol rad (angle × lever arm > tolerance while angle[rad] < atol[Å]). "
+        "AXFLIP: in (b) site patterns whose replacement B has its longest atom pair exactly along x, y or z (A's is generic), "
+        "sites unperturbed and turned by exactly 180° about a coordinate axis. "
+        "MIRROR: in (b) a weakly chiral pattern (mirror misfit 0.5 Å, atol 0.1) next to its mirror image placed at coordinates "
+        "above 0.7 × cell length.")
 
 MOF = os.path.join(core.REPO, "")
 
@@ -218,16 +222,32 @@ def site_case(rng, tier):
     if single:
         pname = "single"
     else:
-        variant = rng.choice(["plain", "fraction", "fraction", "nudge", "nudge", "tilt", "tilt"])
+        variant = rng.choice(["plain", "fraction", "fraction", "nudge", "nudge", "tilt", "tilt", "axflip", "axflip", "mirror", "mirror"])
         # nudge: only patterns without (near-)symmetry — a symmetric pattern with one atom re-positioned by more than the
         # tolerance can still match its own copy in two numberings (out-of-plane shifts change the distances only to second
         # order), and the way back is then legitimately ambiguous
         names = [p for p in findlib.PATTERNS if p != "single" and (variant != "nudge" or (
             len(findlib.PATTERNS[p][0]) >= 3 and p.split("@")[0] not in G.SYMMETRIC))]
-        pname = rng.choice(names) if variant != "tilt" else rng.choice(list(G.LONG_PATTERNS))
+        pname = rng.choice(names)
+        if variant == "tilt":
+            pname = rng.choice(G.TILT_PATTERNS)
+        if variant == "axflip":
+            pname = rng.choice(G.AXSITE_PATTERNS)
     rp_kind = "subst"
     if variant == "fraction":
         kw = dict(ncopies=rng.randint(2, 3))
+    if variant == "axflip":
+        # A's longest pair has a generic direction; B (= A with its last atom substituted and moved further out on its bond)
+        # has its longest pair EXACTLY along a coordinate axis; the sites are unperturbed and turned by exactly 180° about a
+        # coordinate axis, so that B's axis is exactly antiparallel to the copy's on the way back
+        kw = dict(exact=True, tilt=False, flip=False, bent=False, atol=rng.choice([0.05, 0.02, 0.1]), ncopies=rng.randint(1, 2))
+        rp_kind = "stretch"
+    if variant == "mirror":
+        # a weakly chiral site pattern; the structure also holds its MIRROR IMAGE (misfit 0.5 Å, tolerance 0.1) far from the
+        # cell origin: not an occurrence, it must stay untouched in both directions
+        pname = "twist4"
+        kw = dict(mirror_far=True, cell_kind="ortho", atol=0.1, distort=False, exact=False, tilt=False, flip=False, bent=False)
+        rp_kind = "subst_last"
     if variant == "tilt":
         # 6–8 Å long site patterns whose copies are tilted by a small angle (1e-3 rad … 1.3·atol rad) out of the pattern's
         # own orientation: the substituted atom sits at the end of a long lever arm
